@@ -238,7 +238,10 @@ pub static PROPS: &[Prop] = &[
     Prop {
         id: "C18",
         level: "fault_enumeration",
-        parts: &[Part { scenario: "sockio", quick_runs: 30_000, thorough_runs: 500_000, classes: &["fd-mode-changed", "nonblocking-waited"] }],
+        parts: &[
+            Part { scenario: "sockio", quick_runs: 20_000, thorough_runs: 350_000, classes: &["fd-mode-changed", "nonblocking-waited"] },
+            Part { scenario: "connio", quick_runs: 10_000, thorough_runs: 150_000, classes: &["fd-mode-changed", "nonblocking-waited", "conn-wrong-result", "hook-call-lost", "crash"] },
+        ],
         quick_wall_s: 50,
         thorough_wall_s: 600,
         rule: SOCKIO_RULE,
